@@ -454,6 +454,10 @@ def check_output(inp, opts, out):
             sid = st["stop"]["id"]
             if sid in stops and stops[sid].get("custom_data") != st["stop"].get("custom_data"):
                 F["C20"].append("stop %s custom_data changed" % sid)
+            if sid in alts and alts[sid].get("custom_data") != st["stop"].get("custom_data"):
+                F["C20"].append("alternate stop %s: custom_data %s in the input, %s in the output" % (sid, alts[sid].get("custom_data"), st["stop"].get("custom_data")))
+            if sid in alts and alts[sid].get("target_arrival_time") and not st.get("target_arrival_time"):
+                F["C20"].append("alternate stop %s has a target_arrival_time in the input, none in the output" % sid)
         rt = vo.get("route", [])
         if rt:
             w = sum(st.get("waiting_duration", 0) for st in rt)
